@@ -210,14 +210,64 @@ TauxOK(r) ==
                  /\ Good(r.rd, 2 * TolTan(r.F))
                  /\ (r.oc = 1 => Good(r.rf, 2 * TolTan(r.F)))
 
-\* rectifying radius, authalic radius squared: exact and series forms against the defining integrals
+\* the derivative of ToAuxiliary at the equator (pc = 0) and at the poles (pc = 2): d tan(eta) / d tan(phi) is the limit of
+\* tan(eta) / tan(phi) of the defining closed forms; a finite number, to the same budget as the derivative elsewhere
+TdpOK(r) == r.pc \in {0, 2} /\ r.dc = 0 /\ Good(r.rd, 2 * TolTan(r.F))
+
+\* rectifying radius, authalic radius squared: exact and series forms against the defining integrals; the inspectors
+\* a, b, f of the object (ab), whichever constructor built it
 RadOK(r) ==
+  /\ \A i \in DOMAIN r.ab : Good(r.ab[i], TolTan(r.F))
   /\ Good(r.rx, TolTan(r.F)) /\ Good(r.cx, TolTan(r.F)) /\ GoodOrSkipped(r.rqx, TolTan(r.F)) /\ GoodOrSkipped(r.cqx, TolTan(r.F))
   /\ SeriesOK(r.F) => Good(r.rs, TolTan(r.F)) /\ Good(r.cs, TolTan(r.F))
 
 \* divided differences (DAuxLatitude): the definition (eta2 - eta1) / (zeta2 - zeta1); a coarse anchor (2^-33)
+\* Point classes pc: 0 generic pair, 1 neighbouring doubles, 2 both at a pole, 3 both at the equator, 4 one at a pole
+\* ("valid for arbitrary latitude").  ie: the isometric latitude of one of the points is infinite, so the divided difference of
+\* the (increasing) isometric latitude is +infinity (vc = 2); otherwise the result is a finite number (vc = 0).
 DDTol == 1048576
 DdOK(r) ==
-  IF r.k = 0 THEN SeriesOK(r.F) => Good(r.rr, DDTol)
-  ELSE Abs(r.F) <= 100000 => Good(r.rr, DDTol)
+  LET judged == IF r.k = 0 THEN SeriesOK(r.F) ELSE Abs(r.F) <= 100000
+  IN /\ r.pc \in 0..4
+     /\ (r.ie <=> (r.k = 3 /\ r.pc \in {2, 4}))
+     /\ IF r.ie THEN r.vc = 2
+        ELSE judged => r.vc = 0 /\ Good(r.rr, DDTol)
+
+(* ------------------------------------------------------------------------ *)
+(* The AuxAngle class (AuxAngle.hpp): a direction (y, x) in the plane.         *)
+(* ------------------------------------------------------------------------ *)
+\* random record: residuals in units of 2^-53 (angles in radians; relative for the accessors and tangents, so that angles
+\* close to the cardinal points keep their accuracy, as the class promises); budget: the general round-off AngRO / RO
+AngOK(r) ==
+  /\ Good(r.nr, AngRO) /\ Good(r.nd, AngRO) /\ r.ns                            \* normalized(): unit circle, direction, signs
+  /\ Good(r.ad, AngRO) /\ Good(r.ar, AngRO) /\ GoodOrSkipped(r.al, RO) /\ GoodOrSkipped(r.ald, RO) /\ r.at
+  /\ Good(r.fd, AngRO) /\ GoodOrSkipped(r.fdt, RO) /\ Good(r.fdb, AngRO)      \* degrees(d) and back
+  /\ Good(r.fr, AngRO) /\ GoodOrSkipped(r.frt, RO) /\ Good(r.frb, AngRO)      \* radians(r) and back
+  /\ Good(r.fl, RO) /\ Good(r.flb, RO) /\ Good(r.fld, RO) /\ Good(r.fldb, RO)  \* lam(psi), lamd(psid): tan = sinh(psi), and back
+  /\ r.cq                                                                       \* copyquadrant
+  /\ Good(r.pa, AngRO)                                                          \* += adds the angles
+  /\ r.nn
+
+\* lattice: small integer components (y, x) 2^j (j = 99: the non-zero component is infinite); the model is exact.
+Sgn(n) == IF n > 0 THEN 1 ELSE IF n < 0 THEN -1 ELSE 0
+\* direction of the sum of two angles: complex multiplication (x1 + i y1)(x2 + i y2)
+AddY(y1, x1, y2, x2) == y1 * x2 + x1 * y2
+AddX(y1, x1, y2, x2) == x1 * x2 - y1 * y2
+\* angle in degrees of an axis direction (one component zero), atan2 convention
+AxisDeg(y, x) == IF y = 0 THEN (IF x > 0 THEN 0 ELSE 180) ELSE (IF y > 0 THEN 90 ELSE -90)
+DegIs(v, d) == IF d = 0 THEN IsZero(v) ELSE DyNear(v, Sgn(d), Abs(d), 0, 0)
+AngLatticeOK(r) ==
+  LET y1 == r.p[1]  x1 == r.p[2]  y2 == r.p[4]  x2 == r.p[5] IN
+  CASE r.op = 0 ->      \* normalized() of an axis direction (finite or infinite): the unit vector on that axis
+         r.ex /\ r.ry = Sgn(y1) /\ r.rx = Sgn(x1)
+    [] r.op = 1 ->      \* copyquadrant: magnitudes of the first, signs of the second
+         r.ex /\ r.ry = Sgn(y2) * Abs(y1) /\ r.rx = Sgn(x2) * Abs(x1)
+    [] r.op = 2 ->      \* +=: the direction of the sum (any positive multiple)
+         LET ey == AddY(y1, x1, y2, x2)  ex == AddX(y1, x1, y2, x2)
+         IN r.ex /\ r.ry * ex - r.rx * ey = 0 /\ r.ry * ey + r.rx * ex > 0
+    [] r.op = 3 -> DegIs(r.deg, AxisDeg(y1, x1))            \* degrees() of an axis direction
+    [] r.op = 4 ->      \* degrees(90 k) is exactly the axis direction, and degrees() returns 90 k (-180 = 180 as a direction)
+         LET k == y1  cy == IF k = 1 THEN 1 ELSE IF k = -1 THEN -1 ELSE 0  cx == IF k = 0 THEN 1 ELSE IF Abs(k) = 2 THEN -1 ELSE 0
+         IN r.ex /\ r.ry = cy /\ r.rx = cx /\ DegIs(r.deg, 90 * k)
+    [] OTHER -> FALSE
 =============================================================================
